@@ -80,7 +80,7 @@ def model_requests(case, obs):
             f = o.get("final") or {"running": False, "server_obj": False, "listening": False, "thread_ref": False,
                                    "thread_alive": False}
             reqs.append({"op": "http.lifecycle", "mode": "replay", "calls": [e["op"] for e in o.get("events", [])],
-                         "final": {x: f[x] for x in HTTP_FLAGS}})
+                         "final": {x: (f["thread_alive"] if f.get(x) is None else f[x]) for x in HTTP_FLAGS}})
         return reqs
     if k == "lifecycle_sched":
         reqs = []
@@ -89,8 +89,11 @@ def model_requests(case, obs):
                                    "socket_open": False}
             reqs.append({"op": "lifecycle.replay", "threads": [[x for x in t if x != "pause"] for t in case["threads"]],
                          "events": [{"k": e["k"], "t": e["t"]} for e in o.get("events", [])]})
-            reqs.append(dict({"op": "lifecycle.end"}, **{x: f[x] for x in ("running", "shutdown_requested",
-                                                                          "thread_alive", "socket_open")}))
+            # a flag the harness could not observe (renamed attribute) is taken from what IS observable
+            vis = {"running": f["thread_alive"] if f.get("running") is None else f["running"],
+                   "shutdown_requested": False if f.get("shutdown_requested") is None else f["shutdown_requested"],
+                   "thread_alive": f["thread_alive"], "socket_open": f["socket_open"]}
+            reqs.append(dict({"op": "lifecycle.end"}, **vis))
         return reqs
     if k == "lifecycle_seq":
         return [{"op": "lifecycle.seq", "ops": case["ops"]}]
@@ -132,9 +135,9 @@ def _judge_sched_one(case, o, replay, end):
         if e["k"] == "srv_end":
             window = False
         keys = FLAGS[:2] if window else FLAGS
-        if not m["enabled"] or any(e["state"][x] != m["state"][x] for x in keys):
+        if not m["enabled"] or any(e["state"][x] is not None and e["state"][x] != m["state"][x] for x in keys):
             return True, None, False, {"schedule": sub, "event_index": i, "event": e, "model": m}
-    if not replay["all_done"] or any(f[x] != replay["final"][x] for x in FLAGS):
+    if not replay["all_done"] or any(f[x] is not None and f[x] != replay["final"][x] for x in FLAGS):
         return True, None, False, {"schedule": sub, "final": f, "model_final": replay["final"],
                                    "model_all_done": replay["all_done"]}
     return True, None, True, None
@@ -162,9 +165,10 @@ def _judge_sched_http(case, o, m):
     for i, (e, ms) in enumerate(zip(o["events"], m["states"])):
         if e["state"]["sockets_open"] > 1 or e["state"]["threads_alive"] > 1:
             return False, "two_serving_threads", False, {"schedule": sub, "event": e}
-        if any(e["state"][x] != ms[x] for x in HTTP_FLAGS):
+        if any(e["state"][x] is not None and e["state"][x] != ms[x] for x in HTTP_FLAGS):
             return True, None, False, {"schedule": sub, "event_index": i, "event": e, "model": ms}
-    if len(o["events"]) != sum(len(t) for t in case["threads"]) or any(f[x] != m["model_final"][x] for x in HTTP_FLAGS):
+    if len(o["events"]) != sum(len(t) for t in case["threads"]) or any(
+            f[x] is not None and f[x] != m["model_final"][x] for x in HTTP_FLAGS):
         return True, None, False, {"schedule": sub, "final": f, "model_final": m["model_final"],
                                    "calls_seen": len(o["events"])}
     return True, None, True, None
